@@ -457,26 +457,41 @@ def iv_wiring_obs():
             rv, rx = volatility.reader(), log_moneyness.reader()
             return Tensor.fresh(lambda idx: tm.app('P', rv(idx), rx(idx)), volatility._shape, volatility.dtype)
 
+        LO, UP, MI = tm.var('lower'), tm.var('upper'), tm.var('max_iter', 'I')
+
         def run(c):
-            return fiv(pricer, Tensor.input('price', (), torch.float64), precision=SReal(PREC), log_moneyness=Tensor.input('xx', (), torch.float64))
-        paths = explore(run, [tm.gt(PREC, tm.ZERO)], max_paths=4)
+            return fiv(pricer, Tensor.input('price', (), torch.float64), lower=SReal(LO), upper=SReal(UP), precision=SReal(PREC), max_iter=SInt(MI), log_moneyness=Tensor.input('xx', (), torch.float64))
+        hy = [tm.gt(PREC, tm.ZERO), tm.lt(LO, UP), tm.ge(MI, tm.IZERO)]
+        paths = explore(run, hy, max_paths=4)
         if len(paths) != 1 or paths[0].outcome() != 'returns' or not seen:
             return Verdict('unknown', 'engine', time.time() - t0, 'paths %s' % [(p.outcome(), p.traceback[-300:]) for p in paths])
         sig = tm.var('sig')
         val = seen['fn'](Tensor.fresh(lambda idx: sig, (), torch.float64)).at(())
         goals = [('fn(sigma) = pricer(volatility=sigma, **params)', tm.eq(val, tm.app('P', sig, xx))),
                  ('target = price', tm.eq(seen['target'].at(()), price)),
-                 ('bracket = [0.001, 1] cast to price', tm.and_(tm.eq(seen['lower'].at(()), tm.const(0.001)), tm.eq(seen['upper'].at(()), tm.const(1.0)))),
-                 ('precision passed on', tm.eq(_lift(seen['precision']), PREC))]
+                 ('bracket = [lower, upper] as given', tm.and_(tm.eq(seen['lower'].at(()), LO), tm.eq(seen['upper'].at(()), UP))),
+                 ('precision passed on', tm.eq(_lift(seen['precision']), PREC)),
+                 ('max_iter passed on', tm.eq(tm.as_term(_lift(seen['max_iter'])), MI))]
         for (label, gg) in goals:
-            r = smt.prove([tm.gt(PREC, tm.ZERO)], gg, timeout_ms=10000)
+            r = smt.prove(paths[0].facts(hy), gg, timeout_ms=10000)
             if r.status != 'unsat':
                 return Verdict('refuted' if r.status == 'sat' else 'unknown', r.backend, time.time() - t0, 'wiring `%s` fails' % label, witness={'vc': label}, replay=_replay_iv())
-        if seen['lower'].dtype is not torch.float64 or seen['max_iter'] != 100:
-            return Verdict('refuted', 'structural', time.time() - t0, 'bracket dtype %s / max_iter %s' % (seen['lower'].dtype, seen['max_iter']), witness={}, replay={'confirmed': False})
-        return Verdict('proved', 'z3', time.time() - t0, '', sample={'claim': 'find_implied_volatility wiring', 'goals': [g_[0] for g_ in goals]})
+        if seen['lower'].dtype is not torch.float64 or seen['upper'].dtype is not torch.float64:
+            return Verdict('refuted', 'structural', time.time() - t0, 'bracket dtype %s (price: float64)' % seen['lower'].dtype, witness={}, replay={'confirmed': False})
+        # the defaults: the documented volatility range [0.001, 1] stays inside the default bracket, and the default iteration budget lets the
+        # default precision be reached on it ((upper - lower) / 2^max_iter < precision: the convergence bound of the bisect loop contract)
+        import inspect
+        dflt = {k_: v_.default for k_, v_ in inspect.signature(bm.find_implied_volatility).parameters.items() if v_.default is not inspect.Parameter.empty}
+        try:
+            d_lo, d_up, d_pr, d_mi = float(dflt['lower']), float(dflt['upper']), float(dflt['precision']), int(dflt['max_iter'])
+            ok_d = 0.0 < d_lo <= 0.001 and d_up >= 1.0 and d_pr > 0 and (d_up - d_lo) / 2.0 ** d_mi < d_pr
+        except Exception:
+            return Verdict('unknown', 'engine', time.time() - t0, 'defaults of find_implied_volatility not readable: %s' % dflt)
+        if not ok_d:
+            return Verdict('refuted', 'structural', time.time() - t0, 'defaults lower=%s upper=%s precision=%s max_iter=%s: the bracket must contain [0.001, 1] and (upper-lower)/2^max_iter < precision' % (d_lo, d_up, d_pr, d_mi), witness={'defaults': str(dflt)}, replay=_replay_iv())
+        return Verdict('proved', 'z3', time.time() - t0, '', sample={'claim': 'find_implied_volatility wiring', 'goals': [g_[0] for g_ in goals], 'defaults': str(dflt)})
     obs.append(Obligation('C19/find_implied_volatility/wiring', 'post', 'pfhedge._utils.bisect.find_implied_volatility', fiv_check, [PROP],
-                          clause='find_implied_volatility == bisect(sigma -> pricer(volatility=sigma, **params), price, 0.001, 1.0 cast to price, precision, max_iter)'))
+                          clause='find_implied_volatility == bisect(sigma -> pricer(volatility=sigma, **params), price, lower, upper cast to price, precision, max_iter) for any given lower < upper, precision, max_iter; the default bracket contains the documented range [0.001, 1] and the default budget reaches the default precision on it'))
 
     def method_check(modname, clsname, with_m):
         def check():
